@@ -87,3 +87,32 @@ func __ghost(name string) int { return 0 }
 
 // __result: first (integer-like) result of the last recorded call of <name> (verifier only).
 func __result(name string) int { return 0 }
+
+// __resultStr / __resultBool: the k-th result (a string / a boolean) of the
+// last recorded call of <name> (verifier only).
+func __resultStr(name string, k int) string { return "" }
+
+func __resultBool(name string, k int) bool { return false }
+
+// __digits: s is a non-empty string of decimal digits.
+func __digits(s string) bool {
+	if len(s) == 0 {
+		return false
+	}
+	for i := 0; i < len(s); i++ {
+		if s[i] < '0' || s[i] > '9' {
+			return false
+		}
+	}
+	return true
+}
+
+// __decval: the number a string of decimal digits denotes (mathematical in
+// the verifier; wraps at 64 bits when replayed).
+func __decval(s string) uint64 {
+	var v uint64
+	for i := 0; i < len(s); i++ {
+		v = v*10 + uint64(s[i]-'0')
+	}
+	return v
+}
